@@ -38,6 +38,10 @@ func finish(c *Ctx, s *Sess, nontrivial bool) {
 
 // C01: component data integrity across every structural change.
 func caseC01(c *Ctx) {
+	if c.Mode == "big" {
+		caseBig(c)
+		return
+	}
 	cfg := GenCfg(c.R, 0)
 	if c.Case%7 == 3 && len(cfg.Types) < maskBits() {
 		// one component type larger than a memory page
@@ -64,6 +68,10 @@ func caseC01(c *Ctx) {
 
 // C02: entity handles.
 func caseC02(c *Ctx) {
+	if c.Mode == "big" {
+		caseBig(c)
+		return
+	}
 	cfg := GenCfg(c.R, 24)
 	p := DefaultProfile()
 	p.Steps = 220
@@ -134,6 +142,10 @@ func caseC02(c *Ctx) {
 
 // C03: queries.
 func caseC03(c *Ctx) {
+	if c.Mode == "big" {
+		caseBig(c)
+		return
+	}
 	cfg := GenCfg(c.R, 0)
 	p := DefaultProfile()
 	p.Steps = 140
@@ -251,6 +263,12 @@ func caseC07(c *Ctx) {
 		p.Scale(4, "CacheRegister")
 		p.RelRegs = true
 	}
+	if c.Case%32 == 21 {
+		// more registrations than fit in a byte-sized counter or in the first block of the ID pool
+		p.MaxRegs = 258 + c.R.Intn(40)
+		p.Steps = 50
+		p.RelRegs = c.R.Chance(0.5)
+	}
 	o := Opts{Cache: true, Inv: true, Model: c.Case%2 == 0, Track: true}
 	s := NewSess(cfg, o)
 	g := NewGen(c.R, s, p)
@@ -261,6 +279,9 @@ func caseC07(c *Ctx) {
 			}
 		}
 		s.Cov.N["histories_with_17plus_registrations"]++
+		if len(s.regs) > 256 {
+			s.Cov.N["histories_with_257plus_registrations"]++
+		}
 	}
 	for i := 0; i < p.Steps && !s.Failed(); i++ {
 		op := g.Next()
